@@ -89,6 +89,9 @@ class ExposeSensor(Device):
             )
         # the next payload to be sent after cooldown or the last sent payload
         self._payload_after_cooldown: DPTArray | DPTBinary | None = None
+        # the payload last handed to the outgoing queue - `sensor_value.last_payload`
+        # lags behind it until the queue has processed the telegram
+        self._payload_queued: DPTArray | DPTBinary | None = None
         self._cooldown_task = (
             Task(
                 name=f"expose_sensor.cooldown_{id(self)}",
@@ -146,7 +149,7 @@ class ExposeSensor(Device):
             return
         if self._payload_after_cooldown is not None:
             # reading shall not be affected by cooldown, but restart the timer
-            self.sensor_value.send_raw(self._payload_after_cooldown, response=True)
+            self._send(self._payload_after_cooldown, response=True)
             self._restart_cooldown()
             return
         self.sensor_value.respond()
@@ -166,7 +169,12 @@ class ExposeSensor(Device):
             if not self._cooldown_task.done():
                 return
             self.xknx.task_registry.start_task(self._cooldown_task)
-        self.sensor_value.send_raw(payload)
+        self._send(payload)
+
+    def _send(self, payload: DPTArray | DPTBinary, response: bool = False) -> None:
+        """Queue the payload and remember it for the decision at the end of the cooldown."""
+        self._payload_queued = payload
+        self.sensor_value.send_raw(payload, response)
 
     def initialize_value(self, value: Any) -> None:
         """
@@ -181,14 +189,15 @@ class ExposeSensor(Device):
         # equal to `last_payload` means nothing is pending, so a running
         # cooldown task will cancel itself instead of sending this value
         self._payload_after_cooldown = self.sensor_value.last_payload
+        self._payload_queued = self.sensor_value.last_payload
 
     async def _cooldown_send(self) -> None:
-        """Send value after cooldown if it differs from last processed value."""
-        if self.sensor_value.last_payload == self._payload_after_cooldown:
+        """Send value after cooldown if it differs from the value sent last."""
+        if self._payload_queued == self._payload_after_cooldown:
             # cancel cooldown task to break internal loop
             self._cooldown_task.cancel()  # type: ignore[union-attr]
             return
-        self.sensor_value.send_raw(self._payload_after_cooldown)  # type: ignore[arg-type]
+        self._send(self._payload_after_cooldown)  # type: ignore[arg-type]
 
     def _restart_cooldown(self) -> None:
         """Reset cooldown task."""
@@ -202,7 +211,7 @@ class ExposeSensor(Device):
             # a value was sent less than one cooldown ago - the cooldown sends what is pending
             return
         if self._payload_after_cooldown is not None:
-            self.sensor_value.send_raw(self._payload_after_cooldown)
+            self._send(self._payload_after_cooldown)
             self._restart_cooldown()
 
     def unit_of_measurement(self) -> str | None:
